@@ -327,6 +327,9 @@ func (m *moCtx) sortedAfter(fd *ast.FuncDecl, rs *ast.RangeStmt) bool {
 		if !okSort {
 			return m.fail("slice %s is filled in map order and not sorted before its next use at %s", sl.Name(), m.e.Prog.Pos(first))
 		}
+		if why := m.comparatorTotal(fd, call, sl); why != "" {
+			return m.fail("slice %s is filled in map order and sorted at %s with a comparator that is not a total order on distinct elements (%s): tied elements keep their map-iteration order", sl.Name(), m.e.Prog.Pos(first), why)
+		}
 	}
 	return true
 }
@@ -361,3 +364,97 @@ func (e *Env) RMapOrder(filter func(mapRange) bool) {
 }
 
 var _ = strings.TrimSpace
+
+// comparatorTotal: "" when the sort call orders distinct elements totally: sort.Strings/Ints, or
+// sort.Slice*(S, func(i, j int) bool { return S[i] < S[j] }) or { return F(S[i], S[j]) } with F a
+// function of the same package whose last return compares its two parameters directly with < or >.
+func (m *moCtx) comparatorTotal(fd *ast.FuncDecl, call *ast.CallExpr, sl types.Object) string {
+	fn := calleeFunc(m.info, call)
+	switch funcKey(fn) {
+	case "sort.Strings", "sort.Ints", "sort.Float64s":
+		return ""
+	case "sort.Slice", "sort.SliceStable":
+	default:
+		return "unrecognised sort function " + funcKey(fn)
+	}
+	if len(call.Args) != 2 {
+		return "sort call shape"
+	}
+	lit, ok := call.Args[1].(*ast.FuncLit)
+	if !ok || len(lit.Body.List) != 1 {
+		return "comparator is not a single-statement function literal"
+	}
+	rs, ok := lit.Body.List[0].(*ast.ReturnStmt)
+	if !ok || len(rs.Results) != 1 {
+		return "comparator literal does not return a single expression"
+	}
+	var iObj, jObj types.Object
+	var ps []types.Object
+	for _, p := range lit.Type.Params.List {
+		for _, nm := range p.Names {
+			ps = append(ps, m.info.Defs[nm])
+		}
+	}
+	if len(ps) != 2 {
+		return "comparator parameters"
+	}
+	iObj, jObj = ps[0], ps[1]
+	elem := func(x ast.Expr, idx types.Object) bool {
+		ix, ok := x.(*ast.IndexExpr)
+		if !ok {
+			return false
+		}
+		b, ok1 := ix.X.(*ast.Ident)
+		k, ok2 := ix.Index.(*ast.Ident)
+		return ok1 && ok2 && m.info.Uses[b] == sl && m.info.Uses[k] == idx
+	}
+	direct := func(x ast.Expr, a, b func(ast.Expr) bool) bool {
+		be, ok := x.(*ast.BinaryExpr)
+		return ok && (be.Op == token.LSS || be.Op == token.GTR) && a(be.X) && b(be.Y)
+	}
+	isI := func(x ast.Expr) bool { return elem(x, iObj) }
+	isJ := func(x ast.Expr) bool { return elem(x, jObj) }
+	if direct(rs.Results[0], isI, isJ) || direct(rs.Results[0], isJ, isI) {
+		return ""
+	}
+	inner, ok := rs.Results[0].(*ast.CallExpr)
+	if !ok || len(inner.Args) != 2 || !isI(inner.Args[0]) || !isJ(inner.Args[1]) {
+		return "comparator does not compare the two elements themselves"
+	}
+	cmp := calleeFunc(m.info, inner)
+	if cmp == nil {
+		return "comparator callee not resolvable"
+	}
+	// find the declaration of cmp in the in-scope packages
+	for _, pkg := range m.e.Prog.InScopePkgs() {
+		for _, d := range load.AllFuncDecls(pkg) {
+			if pkg.TypesInfo.Defs[d.Name] != types.Object(cmp) || d.Body == nil {
+				continue
+			}
+			var qs []types.Object
+			for _, p := range d.Type.Params.List {
+				for _, nm := range p.Names {
+					qs = append(qs, pkg.TypesInfo.Defs[nm])
+				}
+			}
+			if len(qs) != 2 || len(d.Body.List) == 0 {
+				return "comparator function shape"
+			}
+			last, ok := d.Body.List[len(d.Body.List)-1].(*ast.ReturnStmt)
+			if !ok || len(last.Results) != 1 {
+				return "comparator function does not end in a return"
+			}
+			isP := func(o types.Object) func(ast.Expr) bool {
+				return func(x ast.Expr) bool {
+					id, ok := x.(*ast.Ident)
+					return ok && pkg.TypesInfo.Uses[id] == o
+				}
+			}
+			if direct(last.Results[0], isP(qs[0]), isP(qs[1])) || direct(last.Results[0], isP(qs[1]), isP(qs[0])) {
+				return ""
+			}
+			return "the final comparison of " + d.Name.Name + " is `" + types.ExprString(last.Results[0]) + "`, not a direct < on its two arguments: distinct keys can tie"
+		}
+	}
+	return "comparator function " + cmp.Name() + " not found in the in-scope packages"
+}
